@@ -1,9 +1,410 @@
 /-
-  QEModel.C20 — executable model for property C20 (stub; to be filled in).
+  QEModel.C20 — learning dynamics as state machines with every random choice an
+  explicit input.
+  Mirrors (as the code is now):
+    quantecon/game_theory/normal_form_game.py  Player.payoff_vector (matrix case `payoffVec`, N-player
+                                               tensor case `payoffVecN`), Player.best_response,
+                                               Player.random_choice
+    quantecon/game_theory/brd.py       BRD._set_action_dist / play / time_series, KMR.play, SamplingBRD.play
+    quantecon/game_theory/fictplay.py  FictitiousPlay._play / play / time_series (2 players: `fpStep`,
+                                       N players: `fpStepN`), StochasticFictitiousPlay._play
+                                       (perturbations are inputs), step_size
+    quantecon/game_theory/localint.py  LocalInteraction._play / play / time_series
+    quantecon/game_theory/logitdyn.py  LogitDynamics._play / play / time_series (N players; the cdf
+                                       tables, which contain `exp`, are inputs)
+  Random stream: the code draws (a) the sequence of revising players, (b) one uniform per KMR
+  period / logit period, (c) one `choice` sample per SamplingBRD period, (d) payoff perturbations,
+  (e) scalar `randint(n)` draws *on demand* (random tie-breaking with >= 2 best responses, KMR's
+  random action with >= 2 actions).  (a)-(d) are per-period inputs; (e) is the threaded stream `ri`
+  from which the model pops exactly when the code draws.
 -/
 import QEModel.Base
 namespace QE.C20
 
-def handle (_toks : List String) : String := "bad-op"
+/-! ## scalar-generic numerics: payoff vector, best responses -/
+section num
+variable {α : Type} [Zero α] [Add α] [Sub α] [Mul α] [LT α] [LE α] [DecidableLT α] [DecidableLE α]
+
+/-- `row · x` -/
+def dot : List α → List α → α
+  | a :: r, b :: x => a * b + dot r x
+  | _, _ => 0
+
+/-- `payoff_array.dot(opponent_action)` (2-player case / symmetric game against a count vector) -/
+def payoffVec (A : List (List α)) (x : List α) : List α := A.map (fun r => dot r x)
+
+/-- `payoff_vector + payoff_perturbation` (not in place) -/
+def addPert (pv : List α) : Option (List α) → List α
+  | none => pv
+  | some e => List.zipWith (· + ·) pv e
+
+/-- `payoff_vector.max()` -/
+def maxL : List α → α
+  | [] => 0
+  | a :: l => l.foldl (fun m x => if m < x then x else m) a
+
+/-- `np.where(payoff_vector >= payoff_vector.max() - tol)[0]` -/
+def brSet (pv : List α) (tol : α) : List Nat :=
+  (List.range pv.length).filter (fun i => decide (maxL pv - tol ≤ pv.getD i 0))
+
+/-- `a.searchsorted(v, side='right')` on a sorted array: the first index whose entry exceeds `v` -/
+def searchRight (a : List α) (v : α) : Nat := (a.takeWhile (fun y => decide (y ≤ v))).length
+
+end num
+
+/-- tie-breaking of `best_response`: `'smallest'` takes the first best response; `'random'` calls
+    `random_choice(best_responses)`, which draws `randint(len)` **only if** `len ≠ 1`.
+    Returns the chosen action and the remaining `randint` stream. -/
+def pick (rnd : Bool) (s : List Nat) (ri : List Nat) : Nat × List Nat :=
+  if rnd = true ∧ s.length ≠ 1 then (s.getD (ri.headD 0) 0, ri.tail) else (s.headD 0, ri)
+
+/-- `Player.random_choice()` over all `n` actions: draws only if `n ≠ 1` -/
+def randomAction (n : Nat) (ri : List Nat) : Nat × List Nat :=
+  if n = 1 then (0, ri) else (ri.headD 0, ri.tail)
+
+/-- the representative player: payoff matrix, `tol`, tie-breaking mode -/
+structure Game (α : Type) where
+  A : List (List α)
+  tol : α
+  rnd : Bool
+
+section dyn
+variable {α : Type} [Zero α] [Add α] [Sub α] [Mul α] [LT α] [LE α] [DecidableLT α] [DecidableLE α]
+
+/-- `player.best_response(opp, tie_breaking, payoff_perturbation, tol, random_state)` -/
+def brPick (G : Game α) (opp : List α) (pert : Option (List α)) (ri : List Nat) : Nat × List Nat :=
+  pick G.rnd (brSet (addPert (payoffVec G.A opp) pert) G.tol) ri
+
+/-! ## BRD / KMR / SamplingBRD -/
+
+def cumsumFrom (acc : Int) : List Int → List Int
+  | [] => []
+  | x :: xs => (acc + x) :: cumsumFrom (acc + x) xs
+
+/-- `action_dist.cumsum()` -/
+def cumsum (d : List Int) : List Int := cumsumFrom 0 d
+
+/-- `np.searchsorted(action_dist.cumsum(), player_ind, side='right')` -/
+def locate (d : List Int) (p : Int) : Nat := searchRight (cumsum d) p
+
+/-- `action_dist[i] += δ` -/
+def bump (d : List Int) (i : Nat) (δ : Int) : List Int := d.set i (d.getD i 0 + δ)
+
+/-- `BRD.play(action, action_dist)` ; `ι` embeds the integer counts into the payoff scalars -/
+def brdPlay (ι : Int → α) (G : Game α) (a : Nat) (d : List Int) (ri : List Nat) : List Int × List Nat :=
+  let d1 := bump d a (-1)
+  let r := brPick G (d1.map ι) none ri
+  (bump d1 r.1 1, r.2)
+
+/-- `KMR.play`: mutation iff `u < epsilon` (`u = random_state.random()`) -/
+def kmrPlay (ι : Int → α) (G : Game α) (eps u : α) (a : Nat) (d : List Int) (ri : List Nat) :
+    List Int × List Nat :=
+  if u < eps then
+    let d1 := bump d a (-1)
+    let r := randomAction G.A.length ri
+    (bump d1 r.1 1, r.2)
+  else brdPlay ι G a d ri
+
+/-- `np.bincount(actions, minlength=n)` for actions `< n` -/
+def bincount (n : Nat) (s : List Nat) : List Int := (List.range n).map (fun c => (s.count c : Int))
+
+/-- `SamplingBRD.play`; `sample` is what `random_state.choice(n, size=k, p=dist/(N-1))` returned -/
+def sbrdPlay (ι : Int → α) (G : Game α) (sample : List Nat) (a : Nat) (d : List Int) (ri : List Nat) :
+    List Int × List Nat :=
+  let d1 := bump d a (-1)
+  let r := brPick G ((bincount G.A.length sample).map ι) none ri
+  (bump d1 r.1 1, r.2)
+
+/-- `_set_action_dist(actions)`: count the players on each action -/
+def setActionDist (n : Nat) (actions : List Nat) : List Int := bincount n actions
+
+inductive Kind (α : Type) where
+  | brd
+  | kmr (eps : α)
+  | sbrd
+
+/-- the per-period inputs: revising player index, uniform (KMR), sample (SamplingBRD) -/
+structure Inp (α : Type) where
+  p : Int
+  u : α
+  sample : List Nat
+
+def playK (ι : Int → α) (G : Game α) (k : Kind α) (inp : Inp α) (a : Nat) (d : List Int) (ri : List Nat) :
+    List Int × List Nat :=
+  match k with
+  | .brd => brdPlay ι G a d ri
+  | .kmr eps => kmrPlay ι G eps inp.u a d ri
+  | .sbrd => sbrdPlay ι G inp.sample a d ri
+
+/-- one period of `time_series`: locate the revising player's action, then `play` -/
+def stepK (ι : Int → α) (G : Game α) (k : Kind α) (inp : Inp α) (s : List Int × List Nat) :
+    List Int × List Nat :=
+  playK ι G k inp (locate s.1 inp.p) s.1 s.2
+
+/-- the states visited: `out[t]` for `t < len`, followed by the final state (which the code leaves
+    in the caller's `init_action_dist` array) -/
+def states (ι : Int → α) (G : Game α) (k : Kind α) : List (Inp α) → List Int × List Nat → List (List Int × List Nat)
+  | [], s => [s]
+  | inp :: rest, s => s :: states ι G k rest (stepK ι G k inp s)
+
+/-- `time_series` with the `IndexError` of `action_dist[action] -= 1` when the located action is
+    `num_actions` (player index ≥ total count): `none`.  Otherwise rows, final state, rest of stream. -/
+def series (ι : Int → α) (G : Game α) (k : Kind α) :
+    List (Inp α) → List Int × List Nat → Option (List (List Int) × (List Int × List Nat))
+  | [], s => some ([], s)
+  | inp :: rest, s =>
+    if locate s.1 inp.p < s.1.length then
+      match series ι G k rest (stepK ι G k inp s) with
+      | some (rows, fin) => some (s.1 :: rows, fin)
+      | none => none
+    else none
+
+/-! ## FictitiousPlay / StochasticFictitiousPlay (2 players) -/
+
+variable [One α] [Div α]
+
+/-- `actions[i][:] *= 1 - γ ; actions[i][br] += γ` -/
+def scaleAdd (x : List α) (γ : α) (b : Nat) : List α :=
+  let y := x.map (fun v => v * (1 - γ))
+  y.set b (y.getD b 0 + γ)
+
+/-- `step_size(t)`: constant gain, or `1/(t+2)` -/
+def stepSize (ofN : Nat → α) (gain : Option α) (t : Nat) : α :=
+  match gain with
+  | some g => g
+  | none => 1 / ofN (t + 2)
+
+/-- per-period inputs of (stochastic) fictitious play: step size and the two perturbation vectors -/
+structure FpInp (α : Type) where
+  γ : α
+  pert0 : Option (List α)
+  pert1 : Option (List α)
+
+/-- `_play`: both best responses are computed from the *old* beliefs, then both beliefs move -/
+def fpStep (G0 G1 : Game α) (inp : FpInp α) (s : (List α × List α) × List Nat) : (List α × List α) × List Nat :=
+  let r0 := brPick G0 s.1.2 inp.pert0 s.2
+  let r1 := brPick G1 s.1.1 inp.pert1 r0.2
+  ((scaleAdd s.1.1 inp.γ r0.1, scaleAdd s.1.2 inp.γ r1.1), r1.2)
+
+/-- the belief path: `out[j]`, `j = 0 … len(inputs)` -/
+def fpStates (G0 G1 : Game α) : List (FpInp α) → (List α × List α) × List Nat → List ((List α × List α) × List Nat)
+  | [], s => [s]
+  | inp :: rest, s => s :: fpStates G0 G1 rest (fpStep G0 G1 inp s)
+
+/-! ## FictitiousPlay with N players (general `Player.payoff_vector`) -/
+
+/-- opponents' entries in the order `i+1, …, N-1, 0, …, i-1` -/
+def rot {β : Type} (i : Nat) (l : List β) : List β := l.drop (i + 1) ++ l.take i
+
+/-- `payoff_array.dot(action)` on a C-order flat tensor: contract the last axis (of length
+    `x.length`) with the mixed action `x`; `fuel` bounds the number of chunks -/
+def contractLast (x : List α) : Nat → List α → List α
+  | 0, _ => []
+  | fuel + 1, l =>
+    if l.isEmpty then [] else dot (l.take x.length) x :: contractLast x fuel (l.drop x.length)
+
+/-- `Player.payoff_vector(opponents_actions)` for mixed actions: `for i in reversed(range(num_opponents)):
+    payoff_vector = payoff_vector.dot(opponents_actions[i])` -/
+def payoffVecN (flat : List α) (opps : List (List α)) : List α :=
+  opps.foldr (fun x acc => contractLast x acc.length acc) flat
+
+/-- a player of an N-player game: C-order flat payoff array with axes (own, i+1, …, N-1, 0, …, i-1) -/
+structure GameN (α : Type) where
+  flat : List α
+  tol : α
+  rnd : Bool
+
+def brPickN (G : GameN α) (opps : List (List α)) (pert : Option (List α)) (ri : List Nat) : Nat × List Nat :=
+  pick G.rnd (brSet (addPert (payoffVecN G.flat opps) pert) G.tol) ri
+
+/-- the first loop of `_play`: the best responses of players `i, i+1, …` against the profile `xs`
+    (which is not modified in this loop), threading the `randint` stream -/
+def brsN (xs : List (List α)) (perts : List (Option (List α))) : Nat → List (GameN α) → List Nat → List Nat × List Nat
+  | _, [], ri => ([], ri)
+  | i, G :: rest, ri =>
+    let r := brPickN G (rot i xs) (perts.getD i none) ri
+    let rr := brsN xs perts (i + 1) rest r.2
+    (r.1 :: rr.1, rr.2)
+
+/-- `_play` for N players: all best responses first, then all belief updates -/
+def fpStepN (Gs : List (GameN α)) (γ : α) (perts : List (Option (List α))) (s : List (List α) × List Nat) :
+    List (List α) × List Nat :=
+  let b := brsN s.1 perts 0 Gs s.2
+  (List.zipWith (fun x bi => scaleAdd x γ bi) s.1 b.1, b.2)
+
+def fpStatesN (Gs : List (GameN α)) : List (α × List (Option (List α))) → List (List α) × List Nat →
+    List (List (List α) × List Nat)
+  | [], s => [s]
+  | inp :: rest, s => s :: fpStatesN Gs rest (fpStepN Gs inp.1 inp.2 s)
+
+/-! ## LocalInteraction -/
+
+/-- entry `c` of `adj_matrix[i].dot(actions_matrix)`: total weight of neighbours playing `c` -/
+def wsum : List α → List Nat → Nat → α
+  | w :: ws, a :: as, c => (if a = c then w else 0) + wsum ws as c
+  | _, _, _ => 0
+
+def nbrCounts (row : List α) (actions : List Nat) (n : Nat) : List α :=
+  (List.range n).map (fun c => wsum row actions c)
+
+/-- `_play(actions, player_ind, …)`: the neighbour counts of every reviser are computed from the
+    profile *before* the loop (`old`); the revisers then update in the order given. -/
+def liPlay (G : Game α) (adj : List (List α)) (revs : List Nat) (old : List Nat) (ri : List Nat) :
+    List Nat × List Nat :=
+  revs.foldl (fun (acc : List Nat × List Nat) i =>
+      let r := brPick G (nbrCounts (adj.getD i []) old G.A.length) none acc.2
+      (acc.1.set i r.1, r.2)) (old, ri)
+
+def liStates (G : Game α) (adj : List (List α)) : List (List Nat) → List Nat × List Nat → List (List Nat × List Nat)
+  | [], s => [s]
+  | revs :: rest, s => s :: liStates G adj rest (liPlay G adj revs s.1 s.2)
+
+/-! ## LogitDynamics -/
+
+/-- C-order flat index of the multi-index `os` in an array of shape `dims` -/
+def flatIdx (dims os : List Nat) : Nat :=
+  (List.zip dims os).foldl (fun acc mo => acc * mo.1 + mo.2) 0
+
+/-- `cdf.searchsorted(random_value * cdf[-1], side='right')` -/
+def logitChoice (cdf : List α) (u : α) : Nat := searchRight cdf (u * cdf.getLastD 0)
+
+/-- `_play(player_ind, actions, random_state)` followed by `actions[player_ind] = …`.
+    `tables[i]` is `players[i].logit_choice_cdfs` reshaped to (opponent profiles) × (own actions). -/
+def logitStep (nums : List Nat) (tables : List (List (List α))) (iu : Nat × α) (actions : List Nat) : List Nat :=
+  let cdf := (tables.getD iu.1 []).getD (flatIdx (rot iu.1 nums) (rot iu.1 actions)) []
+  actions.set iu.1 (logitChoice cdf iu.2)
+
+def logitStates (nums : List Nat) (tables : List (List (List α))) : List (Nat × α) → List Nat → List (List Nat)
+  | [], s => [s]
+  | iu :: rest, s => s :: logitStates nums tables rest (logitStep nums tables iu s)
+
+end dyn
+
+/-! ## line protocol -/
+
+local instance : Zero Float := ⟨0.0⟩
+local instance : One Float := ⟨1.0⟩
+
+open QE
+
+section handler
+variable {α : Type} [Zero α] [One α] [Add α] [Sub α] [Mul α] [Div α] [LT α] [LE α]
+  [DecidableLT α] [DecidableLE α]
+
+def optList (l : List α) : Option (List α) := if l.isEmpty then none else some l
+
+def handleG (ofI : Int → α) (ofN : Nat → α) (pα : String → Option α) (sh : α → String)
+    (toks : List String) : String :=
+  let kvA (k : String) : Option α := (kv toks k).bind pα
+  let kvAs (k : String) : Option (List α) := (kv toks k).bind (parseList? pα)
+  let kvAm (k : String) : Option (List (List α)) := (kv toks k).bind (parseMat? pα)
+  match toks with
+  | "brd" :: _ =>
+    match kv toks "kind", kvAm "A", kvA "tol", kvNat toks "rnd", kvInts toks "d0", kvInts toks "ps",
+          kvNats toks "ri", kvA "eps", kvAs "us", kvNatMat toks "samples" with
+    | some kind, some A, some tol, some rnd, some d0, some ps, some ri, some eps, some us, some samples =>
+      let G : Game α := ⟨A, tol, rnd = 1⟩
+      let k? : Option (Kind α) :=
+        if kind = "brd" then some .brd else if kind = "kmr" then some (.kmr eps)
+        else if kind = "sbrd" then some .sbrd else none
+      match k? with
+      | none => "bad-op"
+      | some k =>
+        let inps : List (Inp α) := (List.range ps.length).map fun t =>
+          ⟨ps.getD t 0, us.getD t 0, samples.getD t []⟩
+        -- `init_action_dist=None`: the code draws one action per player and calls `_set_action_dist`
+        let d0 := match kvNats toks "init" with
+          | some acts => setActionDist A.length acts
+          | none => d0
+        match series ofI G k inps (d0, ri) with
+        | none => "ERR:IndexError"
+        | some (rows, fin) =>
+          showMat toString rows ++ "|" ++ showList toString fin.1 ++ "|" ++ toString fin.2.length
+    | _, _, _, _, _, _, _, _, _, _ => "bad-op"
+  | "play" :: _ =>
+    -- a direct call of `play(action, action_dist)` (public API; no validity check in the code)
+    match kv toks "kind", kvAm "A", kvA "tol", kvNat toks "rnd", kvInts toks "d0", kvNat toks "a",
+          kvNats toks "ri", kvA "eps", kvA "u", kvNats toks "sample" with
+    | some kind, some A, some tol, some rnd, some d0, some a, some ri, some eps, some u, some sample =>
+      let G : Game α := ⟨A, tol, rnd = 1⟩
+      let k? : Option (Kind α) :=
+        if kind = "brd" then some .brd else if kind = "kmr" then some (.kmr eps)
+        else if kind = "sbrd" then some .sbrd else none
+      match k? with
+      | none => "bad-op"
+      | some k =>
+        if a < d0.length then
+          let r := playK ofI G k ⟨0, u, sample⟩ a d0 ri
+          showList toString r.1 ++ "|" ++ toString r.2.length
+        else "ERR:IndexError"
+    | _, _, _, _, _, _, _, _, _, _ => "bad-op"
+  | "fp" :: _ =>
+    match kvAm "A0", kvAm "A1", kvA "tol", kvNat toks "rnd", kv toks "gain", kvNat toks "tinit",
+          kvNat toks "steps", kvAs "x0", kvAs "x1", kvNats toks "ri", kvAm "perts" with
+    | some A0, some A1, some tol, some rnd, some gainS, some tinit, some steps, some x0, some x1, some ri,
+      some perts =>
+      let gain? : Option (Option α) := if gainS = "none" then some none else (pα gainS).map some
+      match gain? with
+      | none => "bad-op"
+      | some gain =>
+        let G0 : Game α := ⟨A0, tol, rnd = 1⟩
+        let G1 : Game α := ⟨A1, tol, rnd = 1⟩
+        let sfp := !perts.isEmpty
+        let inps : List (FpInp α) := (List.range steps).map fun j =>
+          ⟨stepSize ofN gain (tinit + j),
+           if sfp then some (perts.getD (2 * j) []) else none,
+           if sfp then some (perts.getD (2 * j + 1) []) else none⟩
+        let sts := fpStates G0 G1 inps ((x0, x1), ri)
+        showMat sh (sts.map (·.1.1)) ++ "|" ++ showMat sh (sts.map (·.1.2)) ++ "|" ++
+          toString ((sts.getLastD ((x0, x1), ri)).2.length)
+    | _, _, _, _, _, _, _, _, _, _, _ => "bad-op"
+  | "fpn" :: _ =>
+    match kvNat toks "N", kvA "tol", kvNat toks "rnd", kv toks "gain", kvNat toks "tinit",
+          kvNat toks "steps", kvNats toks "ri", kvAm "perts" with
+    | some N, some tol, some rnd, some gainS, some tinit, some steps, some ri, some perts =>
+      let gain? : Option (Option α) := if gainS = "none" then some none else (pα gainS).map some
+      let flats? : Option (List (List α)) := (List.range N).mapM fun i => kvAs ("flat" ++ toString i)
+      let xs? : Option (List (List α)) := (List.range N).mapM fun i => kvAs ("x" ++ toString i)
+      match gain?, flats?, xs? with
+      | some gain, some flats, some xs =>
+        let Gs : List (GameN α) := flats.map fun f => ⟨f, tol, rnd = 1⟩
+        let sfp := !perts.isEmpty
+        let inps : List (α × List (Option (List α))) := (List.range steps).map fun j =>
+          (stepSize ofN gain (tinit + j),
+           (List.range N).map fun i => if sfp then some (perts.getD (N * j + i) []) else none)
+        let sts := fpStatesN Gs inps (xs, ri)
+        let rowsOf (i : Nat) : List (List α) := sts.map fun st => st.1.getD i []
+        "|".intercalate ((List.range N).map fun i => showMat sh (rowsOf i)) ++ "|" ++
+          toString ((sts.getLastD (xs, ri)).2.length)
+      | _, _, _ => "bad-op"
+    | _, _, _, _, _, _, _, _ => "bad-op"
+  | "li" :: _ =>
+    match kvAm "A", kvAm "adj", kvA "tol", kvNat toks "rnd", kvNats toks "actions", kvNatMat toks "revs",
+          kvNats toks "ri" with
+    | some A, some adj, some tol, some rnd, some actions, some revs, some ri =>
+      let G : Game α := ⟨A, tol, rnd = 1⟩
+      let sts := liStates G adj revs (actions, ri)
+      showMat toString (sts.map (·.1)) ++ "|" ++ toString ((sts.getLastD (actions, ri)).2.length)
+    | _, _, _, _, _, _, _ => "bad-op"
+  | "logit" :: _ =>
+    match kvNats toks "nums", kvNats toks "actions", kvNats toks "ps", kvAs "us" with
+    | some nums, some actions, some ps, some us =>
+      let tabs? : Option (List (List (List α))) :=
+        (List.range nums.length).mapM fun i => kvAm ("cdf" ++ toString i)
+      match tabs? with
+      | none => "bad-op"
+      | some tabs =>
+        if ps.length ≠ us.length then "bad-op" else
+        showMat toString (logitStates nums tabs (ps.zip us) actions)
+    | _, _, _, _ => "bad-op"
+  | _ => "bad-op"
+
+end handler
+
+def handle (toks : List String) : String :=
+  match kv toks "mode" with
+  | some "rat" => handleG (fun z : Int => (z : Rat)) (fun n : Nat => (n : Rat)) parseRat? showRat toks
+  | some "float" => handleG Float.ofInt Float.ofNat parseFloat? showFloatBits toks
+  | _ => "bad-op"
 
 end QE.C20
